@@ -153,7 +153,52 @@ def get_document_contract():
     cl = Clause("loader-chosen-by-bare-media-type", post,
                 statement="the document bytes are loaded with content_type == Content-Type header up to the first ';' (else the "
                           "type guessed from the URL); HTTP errors give a GeneratorError", props=["C17", "C06"])
-    return FnContract("openapi_python_client:_get_document", [Case("url-source", make, [cl], raises=(), props=["C17", "C06"])])
+
+    def make_path(I):
+        import mimetypes
+        import openapi_python_client as opc
+        from pyvc.symexec import STuple
+        S = z3.StringSort()
+        captured = []
+        content = SOpaque("file bytes", cls=bytes)
+        guessed = SStr(z3.Const("guessed_type", S))
+        I.lib = dict(I.lib)
+        I.lib[mimetypes.guess_type] = lambda I2, a, k: STuple([guessed, None])
+        state = {"read": 0}
+
+        def read_bytes(I2, a, k):
+            state["read"] += 1
+            if I2.branch_free():
+                # the file system may refuse: missing file, a directory, no permission (all subclasses of OSError)
+                I2.raise_([FileNotFoundError, IsADirectoryError, PermissionError][I2.choose(3)], "cannot read")
+            return content
+        uri = SOpaque("absolute path", cls=object, attrs={"as_uri": SFunc("model", lambda I2, a, k: SStr(z3.Const("file_uri", S)))})
+        source = SOpaque("path", cls=__import__("pathlib").PurePosixPath,
+                         attrs={"read_bytes": SFunc("model", read_bytes), "absolute": SFunc("model", lambda I2, a, k: uri)})
+
+        def load(I2, a, k):
+            captured.append((a[0] if a else k.get("data"), a[1] if len(a) > 1 else k.get("content_type")))
+            return SOpaque("loaded document")
+        I.contracts["openapi_python_client:_load_yaml_or_json"] = load
+        return SFunc("pyfunc", opc._get_document), [], {"source": source, "timeout": 5}, {
+            "captured": captured, "content": content, "guessed": guessed, "state": state}
+
+    def post_path(ctx):
+        i = ctx.inputs
+        from openapi_python_client.parser.errors import GeneratorError
+        cap = i["captured"]
+        if i["state"]["read"] != 1:
+            return False
+        if not cap:
+            return isinstance(ctx.value, SObj) and ctx.value.cls is GeneratorError      # the file could not be read
+        data, ct = cap[0]
+        return data is i["content"] and ct is i["guessed"]
+    cl2 = Clause("unreadable-path-is-a-diagnostic", post_path,
+                 statement="a path source is read once; if the file system refuses (missing file, directory, permissions) the "
+                           "result is a GeneratorError, otherwise the bytes are loaded with the media type guessed from the path",
+                 props=["C06", "C17"])
+    return FnContract("openapi_python_client:_get_document", [Case("url-source", make, [cl], raises=(), props=["C17", "C06"]),
+                                                             Case("path-source", make_path, [cl2], raises=(), props=["C06", "C17"])])
 
 
 def load_contract():
